@@ -72,6 +72,8 @@ class World:
         self.storage: dict[int, dict[int, int]] = {}
         self.transient: dict[int, dict[int, int]] = {}
         self.balance: dict[int, int] = {}
+        # value of slots nobody has written yet (symbolic initial storage: the caller supplies the assignment); default 0
+        self.initial: dict[tuple[int, int], int] = {}
 
     def snapshot(self):
         return (dict(self.code), {a: dict(s) for a, s in self.storage.items()},
@@ -85,6 +87,7 @@ class World:
     def copy(self):
         w = World()
         w.restore(self.snapshot())
+        w.initial = self.initial
         return w
 
     def bal(self, a):
@@ -451,7 +454,8 @@ class RefEVM:
                 mwrite(off, bytes([v & 0xFF]))
             elif op == 0x54:
                 slot = pop()
-                v = w.storage.setdefault(this, {}).get(slot, 0)
+                st_ = w.storage.setdefault(this, {})
+                v = st_[slot] if slot in st_ else w.initial.get((this, slot), 0)
                 fr.trace.append(("sload", this, slot, v, False))
                 push(v)
             elif op == 0x55:
